@@ -83,15 +83,16 @@ PROPS = {
         "vo": ["Properties/C11.vo"],
         "harness_timeout": 2400,
         "rule": "histories of 2..9 operations on ONE BackwardEngine (memoisation enabled) and one caller's fact store: queries (atomic goals), assertions / changes (set a field, in non-deterministic sets also to a wrong "
-                "value) and removals of facts in between, often the same query before and after a change, incl. paired changes (two fields swap their values or both get the same new value); rule sets, strategies and depths as in C09. Observed per query: provable, facts before and after. "
-                "non-trivial = at least one provable query",
+                "value) and removals of facts in between, often the same query before and after a change, incl. paired changes (two fields swap their values or both get the same new value); rule sets, strategies and depths as in C09. sibling queries (the same string field and the same word operator contains / starts_with / ends_with with two different literals, the failing one first); "
+                "aggregate queries that fail half-way (op (3)) in between. Observed per query: provable, facts before and after, and a flag computed by the harness: a freshly built engine gives the same verdict on a copy of the facts "
+                "(not for breadth-first) and the engine's public configuration is still the one it was built with. non-trivial = at least one provable query",
         "level_text": "Theorem (Coq): with the memo table of BackwardEngine (keyed by the query and the canonical encoding of the facts, only failures answered from it), whatever was asked before on whatever facts, the "
                 "verdict of a query is the verdict a fresh search gives on the facts passed in, and the table stays sound (invariant by induction over the history); a fresh engine's table is sound. "
                 "The premise of that theorem is discharged (Proofs/BackwardEquivProofs.v): the search reads a store only through its lookup function (same lookups => same verdict, by simulation of the whole "
                 "mutual search), and for stores with one entry per key holding integers / strings / booleans / null the canonical sorted encoding determines the lookup function; hence C11_history_is_fresh: "
                 "along ANY history of queries, each on its own store, every verdict is the fresh verdict, with no hypothesis beyond the shape of the stores. The engine model "
                 "with its table is compared with the code query by query on deterministic rule sets, and the monitor compares every observed verdict with a fresh model search on the observed facts.",
-        "level_note": "The premise-free theorem covers stores of integers, strings, booleans and null (what the harness generates); for floats / arrays / objects the general theorem keeps the premise that the "
+        "level_note": "NOT-prefixed queries are not generated (negation as failure is not modelled); the number of solutions is not compared (two fresh engines disagree on it: hash-set order). The premise-free theorem covers stores of integers, strings, booleans and null (what the harness generates); for floats / arrays / objects the general theorem keeps the premise that the "
                 "sorted encoding determines the verdict. RETE-attached queries (proof graph, TMS retractions) are outside the model. Trusted: as C09 plus the memo key of repair dfacdc7. Axioms: none.",
         "trusted_base": [],
         "assumptions": ["no RETE engine attached to the queries"],
@@ -126,6 +127,7 @@ PROPS = {
     },
     "C05": {
         "num": 5,
+        "single_case_timeout": 150,
         "vo": ["Properties/C05.vo"],
         "harness_timeout": 3000,
         "rule": "14 entry points (evaluate_expression on an identifier alphabet with exact prediction; evaluate_expression, GRLParser::parse_rules / parse_with_modules, QueryParser, ExpressionParser, GRLQueryParser::parse / parse_queries, "
@@ -149,7 +151,7 @@ PROPS = {
         "rule": "random histories of 3..12 insert / update / retract / fire_all / reset ops over up to 6 facts of 3 types and 2..6 single-type rules (And/Or/Not trees of integer comparisons over 3 fields, "
                 "possibly missing); even cases: actions with effects (assign a field, retract the matched fact), distinct priorities and at most one live fact per type (the outcome is then independent of HashSet "
                 "iteration order) - firings compared in order with the matched handle and the matched fact's contents as seen by the action; odd cases: inert actions, several facts per type, salience ties - "
-                "fired rule names compared as a multiset. After every op the three working-memory views are dumped. Each case runs in a child process with a 60 s watchdog. non-trivial = at least one firing",
+                "fired rule names compared as a multiset. After every op the three working-memory views are dumped. Systematic stream: 3..5 (thorough 6) facts over one or two types retracted in EVERY order with an update or fire_all squeezed in. Each case runs in a child process with a 60 s watchdog. non-trivial = at least one firing",
         "level_text": "Proved on the model for every engine state: every firing produced by fire_all is for a rule whose condition is true of the matched fact's contents at that moment (and only live facts are "
                 "matched); handles are issued in increasing order. The property's sentences - firings only for live satisfying facts, retracted facts never fire, exactly-once firing of no-loop rules under inert actions, "
                 "agreement of the three working-memory views, handle freshness - are the Coq-defined monitor Incremental.ok evaluated on the implementation's own observations (it does not use the propagation model), "
@@ -201,11 +203,14 @@ PROPS = {
                 "invalidate_handle up to depth 4 over 3 handles (quick; thorough adds depth 4 over 4 and depth 5 over 3), plus random sequences of "
                 "2..9 ops over 5 handles incl. self-premises, key aliasing and is_proven queries; non-trivial = at least one invalidation after two insertions",
         "level_text": "Proved for every graph and propagation depth: re-proof makes a handle valid and proven; an invalidation only ever lowers validity and "
-                "shrinks justification lists; a directly invalidated handle is invalid. The full statement (valid exactly while a justification survives, as "
-                "the least fixpoint of loss of justifications, order-free) is the Coq-defined executable specification ProofGraph.ok, evaluated on every "
+                "shrinks justification lists; a directly invalidated handle is invalid. The full statement is a theorem (Proofs/ProofGraphInvProofs.v): after every well-formed history "
+                "the graph satisfies Inv (unique handles, a valid proof keeps a justification, every premise is in the dependency index, NO remaining justification names an invalid cached proof); one "
+                "invalidation is EXACT (each proof keeps exactly the justifications without a dead premise, and is valid iff it was, is not the target and keeps one) and MINIMAL (the dead set is contained "
+                "in every set that contains the target and the old dead and is closed under loss of support - the least fixpoint, so cycles do not kill more than necessary); the fuel of the recursive "
+                "propagation (total number of justifications + 1) provably suffices. The order-free executable specification ProofGraph.ok is still evaluated on every "
                 "observation of the real ProofGraph (validity + justification count of every handle and is_proven of every key after every op) and compared with the model.",
         "level_note": "Trusted: Coq kernel; model of proof_graph.rs after fix ec1ef45 (HashSet iteration order modelled as insertion order; per-node dependents, stats, "
-                "bindings not modelled); harness; extraction. The equality 'recursive propagation = least fixpoint' is checked by the monitor on all generated histories, not yet a theorem. Axioms: none.",
+                "bindings not modelled); harness; extraction. The theorems are about the faithful model; that the model is the code is the correspondence check. Axioms: none.",
         "trusted_base": [],
         "assumptions": ["a handle that has been invalidated (directly or by losing every justification) is not used as a premise of a later insertion (the property's quantifier); later ops of such histories are compared model-vs-code only"],
     },
